@@ -55,6 +55,9 @@ def make_desc(rng, migrations=None, edge_md=True, unique_node_md=False, max_node
                 if t not in off:
                     off[t] = rng.choice([0, 0, 0.5])
                 m[4] = t + off[t]
+    if rng.random() < 0.3:
+        ancient_leaves(d, rng)
+        times = [r[1] for r in d["nodes"]]
     if rng.random() < 0.6:
         raise_times(d, rng)
     if migrations is None:
@@ -72,6 +75,37 @@ def make_desc(rng, migrations=None, edge_md=True, unique_node_md=False, max_node
         migs.sort(key=lambda m: m[5])
     d["migrations"] = migs
     return d
+
+
+def resort_mutations(d):
+    """mutations of a site in non-increasing time order (stable), parent references follow"""
+    muts = d["mutations"]
+    order = sorted(range(len(muts)), key=lambda j: (muts[j][0], -(muts[j][4] if muts[j][4] is not None else 0)))
+    if order != list(range(len(muts))):
+        new_id = {old: new for new, old in enumerate(order)}
+        d["mutations"] = [list(muts[j]) for j in order]
+        for m in d["mutations"]:
+            if m[3] != NULL:
+                m[3] = new_id[m[3]]
+
+
+def ancient_leaves(d, rng):
+    """Ancient samples: leaves (no child edges) moved up in time to just below their youngest
+    parent, so that nodes at / above a cut-off have young parents and old leaves exist."""
+    times = [r[1] for r in d["nodes"]]
+    has_child = {e[2] for e in d["edges"]}
+    for u, r in enumerate(d["nodes"]):
+        if u in has_child or rng.random() < 0.5:
+            continue
+        ps = [times[e[2]] for e in d["edges"] if e[3] == u]
+        top = (min(ps) - 1) if ps else rng.randrange(0, 4)
+        if top > r[1]:
+            r[1] = rng.randrange(r[1] + 1, top + 1)
+            r[0] |= 1 if rng.random() < 0.8 else 0
+            for m in d["mutations"]:
+                if m[1] == u and m[4] is not None and m[4] < r[1]:
+                    m[4] = r[1]
+    resort_mutations(d)
 
 
 def raise_times(d, rng):
@@ -147,23 +181,104 @@ def _t2(t):
     return int(r)
 
 
+def _mdcol(table):
+    import tskit
+    return [bytes(b).hex() for b in tskit.unpack_bytes(table.metadata, table.metadata_offset)]
+
+
+def _strcol(data, offset):
+    import tskit
+    return [bytes(b).decode("utf8") for b in tskit.unpack_bytes(data, offset)]
+
+
 def dump(tc, s):
+    """Row lists on the lattice, read from the raw columns (metadata is never decoded, so
+    metadata schemas may be set on the tables)."""
     import tskit
     out = {"L": _lat(tc.sequence_length, s)}
-    out["nodes"] = [[int(r.flags), _t2(r.time), int(r.population), int(r.individual), bytes(r.metadata).hex()]
-                    for r in tc.nodes]
-    out["edges"] = [[_lat(r.left, s), _lat(r.right, s), int(r.parent), int(r.child), bytes(r.metadata).hex()]
-                    for r in tc.edges]
-    out["sites"] = [[_lat(r.position, s), r.ancestral_state, bytes(r.metadata).hex()] for r in tc.sites]
-    out["mutations"] = [[int(r.site), int(r.node), r.derived_state, int(r.parent),
-                         None if tskit.is_unknown_time(r.time) else _t2(r.time), bytes(r.metadata).hex()]
-                        for r in tc.mutations]
-    out["migrations"] = [[_lat(r.left, s), _lat(r.right, s), int(r.node), int(r.source), int(r.dest),
-                          _t2(r.time), bytes(r.metadata).hex()] for r in tc.migrations]
-    out["individuals"] = [[int(r.flags), [int(x) for x in r.location], [int(x) for x in r.parents],
-                           bytes(r.metadata).hex()] for r in tc.individuals]
-    out["populations"] = [[bytes(r.metadata).hex()] for r in tc.populations]
+    t = tc.nodes
+    md = _mdcol(t)
+    out["nodes"] = [[int(t.flags[i]), _t2(t.time[i]), int(t.population[i]), int(t.individual[i]), md[i]]
+                    for i in range(t.num_rows)]
+    t = tc.edges
+    md = _mdcol(t)
+    out["edges"] = [[_lat(t.left[i], s), _lat(t.right[i], s), int(t.parent[i]), int(t.child[i]), md[i]]
+                    for i in range(t.num_rows)]
+    t = tc.sites
+    md = _mdcol(t)
+    anc = _strcol(t.ancestral_state, t.ancestral_state_offset)
+    out["sites"] = [[_lat(t.position[i], s), anc[i], md[i]] for i in range(t.num_rows)]
+    t = tc.mutations
+    md = _mdcol(t)
+    der = _strcol(t.derived_state, t.derived_state_offset)
+    out["mutations"] = [[int(t.site[i]), int(t.node[i]), der[i], int(t.parent[i]),
+                         None if tskit.is_unknown_time(t.time[i]) else _t2(t.time[i]), md[i]]
+                        for i in range(t.num_rows)]
+    t = tc.migrations
+    md = _mdcol(t)
+    out["migrations"] = [[_lat(t.left[i], s), _lat(t.right[i], s), int(t.node[i]), int(t.source[i]),
+                          int(t.dest[i]), _t2(t.time[i]), md[i]] for i in range(t.num_rows)]
+    t = tc.individuals
+    md = _mdcol(t)
+    out["individuals"] = [[int(t.flags[i]),
+                           [int(x) for x in t.location[t.location_offset[i]:t.location_offset[i + 1]]],
+                           [int(x) for x in t.parents[t.parents_offset[i]:t.parents_offset[i + 1]]], md[i]]
+                          for i in range(t.num_rows)]
+    out["populations"] = [[m] for m in _mdcol(tc.populations)]
     return out
+
+
+TABLES = ("nodes", "edges", "sites", "mutations", "migrations", "individuals", "populations")
+
+
+def set_context(tc):
+    """Everything an editing operation must leave alone besides the rows: time units, top-level
+    metadata and schema, reference sequence, the metadata schema of every table."""
+    import tskit
+    tc.time_units = "verif-units"
+    tc.metadata_schema = tskit.MetadataSchema({"codec": "json", "title": "top"})
+    tc.metadata = {"k": [1, 2, 3]}
+    tc.reference_sequence.data = "ACGTACGT"
+    tc.reference_sequence.url = "http://example.invalid/ref"
+    tc.reference_sequence.metadata_schema = tskit.MetadataSchema({"codec": "json", "title": "ref"})
+    tc.reference_sequence.metadata = {"r": 1}
+    for nm in TABLES:
+        getattr(tc, nm).metadata_schema = tskit.MetadataSchema({"codec": "json", "title": "schema-of-" + nm})
+
+
+def context(tc):
+    c = {"time_units": tc.time_units, "metadata": bytes(tc.metadata_bytes).hex(),
+         "metadata_schema": repr(tc.metadata_schema),
+         "ref_data": tc.reference_sequence.data, "ref_url": tc.reference_sequence.url,
+         "ref_metadata": bytes(tc.reference_sequence.metadata_bytes).hex(),
+         "ref_schema": repr(tc.reference_sequence.metadata_schema)}
+    for nm in TABLES:
+        c["schema:" + nm] = repr(getattr(tc, nm).metadata_schema)
+    return c
+
+
+def build(case, **kw):
+    tc = gen_ts.build_tables(case["desc"], **kw)
+    if case.get("ctx"):
+        set_context(tc)
+    return tc
+
+
+def finish(obs, case, tc_in_ctx, out):
+    obs["nprov"] = out.provenances.num_rows
+    if case.get("ctx"):
+        obs["ctx_in"] = tc_in_ctx
+        obs["ctx_out"] = context(out)
+
+
+def check_context(op, case, obs, fails, has_prov_arg=True):
+    want = 1 if (has_prov_arg and case.get("prov")) else 0
+    if obs.get("nprov", want) != want:
+        fails.append((op + ":provenance-rows", "%d provenance rows, expected %d (record_provenance=%r)"
+                      % (obs["nprov"], want, bool(case.get("prov")))))
+    if case.get("ctx") and obs.get("ctx_out") != obs.get("ctx_in"):
+        diff = [k for k in obs["ctx_in"] if obs["ctx_in"][k] != (obs.get("ctx_out") or {}).get(k)]
+        fails.append((op + ":context-changed", "changed: %r" % diff))
 
 
 def dump_raw(tc, s):
@@ -414,10 +529,14 @@ def valid_interval_lists(P, rng, count):
     abutting allowed."""
     out = []
     for _ in range(count):
-        k = rng.choice([0, 1, 1, 1, 2, 2, 3])
+        k = rng.choice([0, 1, 1, 2, 2, 2, 3, 4])
         pts = sorted(rng.choice(range(P + 1)) for _ in range(2 * k))
         ivs = [[pts[2 * i], pts[2 * i + 1]] for i in range(k)]
         ivs = [iv for iv in ivs if iv[0] < iv[1]]
+        if ivs and rng.random() < 0.25:
+            ivs[0][0] = 0                      # touching the left end of the sequence
+        if ivs and rng.random() < 0.25:
+            ivs[-1][1] = P                     # touching the right end
         out.append(ivs)
     return out
 
@@ -433,13 +552,28 @@ def all_interval_lists(P, maxk):
     return res
 
 
-class Intervals(Family):
+class Flagged(Family):
+    """adds the context / provenance switches to every generated case"""
+    ctx_ok = True
+
+    def generate(self, rng, tier):
+        r2 = __import__("random").Random(rng.random())
+        for c in self._generate(rng, tier):
+            if self.ctx_ok and r2.random() < 0.35:
+                c["ctx"] = True
+                c.pop("metadata", None)          # node schema is JSON: new nodes get the empty value {}
+            if r2.random() < 0.3:
+                c["prov"] = True
+            yield c
+
+
+class Intervals(Flagged):
     name = "intervals"
     prelude = PRELUDE
     workers = 8
     timeout = 30.0
 
-    def generate(self, rng, tier):
+    def _generate(self, rng, tier):
         nd = 120 if tier == "quick" else 650
         per = 10 if tier == "quick" else 16
         # exhaustive interval lists on a few small descriptions
@@ -487,17 +621,19 @@ class Intervals(Family):
     def observe(self, case):
         d = case["desc"]
         s = d["scale"]
-        tc = gen_ts.build_tables(d)
+        tc = build(case)
         obs = {"in": dump(tc, s)}
+        ctx0 = context(tc) if case.get("ctx") else None
+        prov = bool(case.get("prov"))
         ivs = [[real(a, s), real(b, s)] for a, b in case["intervals"]]
         if "raw_intervals" in case:
             ivs = case["raw_intervals"]
         try:
             if case["api"] == "ts":
                 ts = tc.tree_sequence()
-                out = getattr(ts, case["op"])(ivs, simplify=case["simplify"], record_provenance=False).dump_tables()
+                out = getattr(ts, case["op"])(ivs, simplify=case["simplify"], record_provenance=prov).dump_tables()
             else:
-                getattr(tc, case["op"])(ivs, simplify=case["simplify"], record_provenance=False)
+                getattr(tc, case["op"])(ivs, simplify=case["simplify"], record_provenance=prov)
                 out = tc
         except Exception as e:      # noqa: BLE001
             obs["error"] = type(e).__name__
@@ -505,7 +641,7 @@ class Intervals(Family):
             return obs
         obs["out"] = dump(out, s)
         obs["valid"] = validity(out)
-        obs["nprov"] = out.provenances.num_rows
+        finish(obs, case, ctx0, out)
         return obs
 
     @staticmethod
@@ -549,8 +685,7 @@ class Intervals(Family):
             fails.append((op + ":result-invalid", str(obs["valid"])))
         if out["L"] != P:
             fails.append((op + ":sequence-length-changed", "%r" % out["L"]))
-        if obs.get("nprov"):
-            fails.append((op + ":provenance-added", "record_provenance=False added a row"))
+        check_context(op, case, obs, fails)
         n = len(inp["nodes"])
         keep_site = [inside(r[0]) for r in inp["sites"]]
         if not case["simplify"]:
@@ -692,12 +827,41 @@ def check_input(inp, obs, fails):
 # ltrim / rtrim / trim
 # ---------------------------------------------------------------------------
 
-class Trim(Family):
+_TRIM_FACTS = []
+
+
+def trim_facts():
+    """Which variant of ltrim / _check_trim_conditions the source under test contains: the three
+    booleans of translator/facts_c11.py, extracted (fail-closed) from the same tree the
+    implementation was built from.  Passed to the model as arguments."""
+    if not _TRIM_FACTS:
+        import importlib.util
+        import os
+        import re
+        from harness import common
+        path = os.path.join(common.VERIF, "translator", "facts_c11.py")
+        spec = importlib.util.spec_from_file_location("facts_c11", path)
+        mod = importlib.util.module_from_spec(spec)
+        spec.loader.exec_module(mod)
+
+        def die(msg):
+            raise RuntimeError(msg)
+        lines = mod.facts(lambda rel: open(os.path.join(common.REPO, rel)).read(), die, None)
+        vals = {}
+        for ln in lines:
+            m = re.match(r"Definition (\w+) : bool := (true|false)\.", ln)
+            vals[m.group(1)] = m.group(2)
+        _TRIM_FACTS.append((vals["C11_ltrim_passes_edge_metadata"], vals["C11_ltrim_passes_migration_metadata"],
+                            vals["C11_trim_check_uses_or"]))
+    return _TRIM_FACTS[0]
+
+
+class Trim(Flagged):
     name = "trim"
     prelude = PRELUDE
     workers = 8
 
-    def generate(self, rng, tier):
+    def _generate(self, rng, tier):
         nd = 500 if tier == "quick" else 3500
         for k in range(nd):
             d = make_desc(rng, migrations=(rng.random() < 0.5))
@@ -720,14 +884,16 @@ class Trim(Family):
     def observe(self, case):
         d = case["desc"]
         s = d["scale"]
-        tc = gen_ts.build_tables(d)
+        tc = build(case)
         obs = {"in": dump(tc, s)}
+        ctx0 = context(tc) if case.get("ctx") else None
+        prov = bool(case.get("prov"))
         try:
             if case["api"] == "ts":
                 ts = tc.tree_sequence()
-                out = getattr(ts, case["op"])(record_provenance=False).dump_tables()
+                out = getattr(ts, case["op"])(record_provenance=prov).dump_tables()
             else:
-                getattr(tc, case["op"])(record_provenance=False)
+                getattr(tc, case["op"])(record_provenance=prov)
                 out = tc
         except Exception as e:      # noqa: BLE001
             obs["error"] = type(e).__name__
@@ -735,7 +901,7 @@ class Trim(Family):
             if case["api"] == "ts" and obs["error"] == "LibraryError":
                 # TreeSequence.<op> = TableCollection.<op> + tables.tree_sequence(); the model is of
                 # the TableCollection method, so record what that produced before validation failed
-                tc2 = gen_ts.build_tables(d)
+                tc2 = build(case)
                 try:
                     getattr(tc2, case["op"])(record_provenance=False)
                     obs["tc_out"] = dump_raw(tc2, s)
@@ -744,6 +910,7 @@ class Trim(Family):
             return obs
         obs["out"] = dump(out, s)
         obs["valid"] = validity(out)
+        finish(obs, case, ctx0, out)
         return obs
 
     def oracle(self, case, obs):
@@ -780,6 +947,7 @@ class Trim(Family):
             fails.append((op + ":result-invalid", str(obs["valid"])))
         if out["L"] != top - d:
             fails.append((op + ":sequence-length", "%r expected %r" % (out["L"], top - d)))
+        check_context(op, case, obs, fails)
         unchanged(op, ["nodes", "individuals", "populations"], inp, out, fails)
         ee = [[l - d, r - d, p, c, m] for l, r, p, c, m in inp["edges"]]
         if sorted(out["edges"]) != sorted(ee):
@@ -816,7 +984,9 @@ class Trim(Family):
             exp = q_expect(obs)
         if exp is None:
             return None
-        return "res_tables_eqb (%s_c %s) %s" % (case["op"], q_tables(obs["in"]), exp)
+        emd, gmd, cf = trim_facts()
+        flags = {"ltrim": "%s %s %s" % (emd, gmd, cf), "rtrim": cf, "trim": "%s %s %s" % (emd, gmd, cf)}[case["op"]]
+        return "res_tables_eqb (%s_c %s %s) %s" % (case["op"], flags, q_tables(obs["in"]), exp)
 
     def nontrivial(self, case, obs):
         d = case["desc"]
@@ -836,12 +1006,12 @@ class Trim(Family):
 # delete_sites
 # ---------------------------------------------------------------------------
 
-class DelSites(Family):
+class DelSites(Flagged):
     name = "delsites"
     prelude = PRELUDE
     workers = 8
 
-    def generate(self, rng, tier):
+    def _generate(self, rng, tier):
         nd = 100 if tier == "quick" else 700
         for _ in range(nd):
             d = make_desc(rng, max_sites=5)
@@ -863,13 +1033,15 @@ class DelSites(Family):
     def observe(self, case):
         d = case["desc"]
         s = d["scale"]
-        tc = gen_ts.build_tables(d)
+        tc = build(case)
         obs = {"in": dump(tc, s)}
+        ctx0 = context(tc) if case.get("ctx") else None
+        prov = bool(case.get("prov"))
         try:
             if case["api"] == "ts":
-                out = tc.tree_sequence().delete_sites(case["ids"], record_provenance=False).dump_tables()
+                out = tc.tree_sequence().delete_sites(case["ids"], record_provenance=prov).dump_tables()
             else:
-                tc.delete_sites(case["ids"], record_provenance=False)
+                tc.delete_sites(case["ids"], record_provenance=prov)
                 out = tc
         except Exception as e:      # noqa: BLE001
             obs["error"] = type(e).__name__
@@ -877,6 +1049,7 @@ class DelSites(Family):
             return obs
         obs["out"] = dump(out, s)
         obs["valid"] = validity(out)
+        finish(obs, case, ctx0, out)
         return obs
 
     def oracle(self, case, obs):
@@ -898,6 +1071,7 @@ class DelSites(Family):
             fails.append((op + ":result-invalid", str(obs["valid"])))
         if out["L"] != inp["L"]:
             fails.append((op + ":sequence-length-changed", ""))
+        check_context(op, case, obs, fails)
         unchanged(op, ["nodes", "individuals", "populations"], inp, out, fails)
         cmp_rows(op, "edges-changed", out["edges"], obs["in"]["edges"], fails)
         cmp_rows(op, "migrations-changed", out["migrations"], obs["in"]["migrations"], fails)
@@ -949,12 +1123,12 @@ def cut_times(d):
     return sorted(out) or [0]
 
 
-class TimeCut(Family):
+class TimeCut(Flagged):
     name = "timecut"
     prelude = PRELUDE
     workers = 8
 
-    def generate(self, rng, tier):
+    def _generate(self, rng, tier):
         nd = 90 if tier == "quick" else 800
         for k in range(nd):
             mig = rng.random() < 0.25
@@ -982,8 +1156,9 @@ class TimeCut(Family):
         op = case["op"]
         t = case["time2"] / 2
         if op == "delete_older":
-            tc = gen_ts.build_tables(d, sort=case["sorted"], index=case["sorted"])
+            tc = build(case, sort=case["sorted"], index=case["sorted"])
             obs = {"in": dump(tc, s)}
+            ctx0 = context(tc) if case.get("ctx") else None
             try:
                 tc.delete_older(t)
             except Exception as e:      # noqa: BLE001
@@ -993,9 +1168,11 @@ class TimeCut(Family):
             obs["out"] = dump(tc, s)
             if case["sorted"]:
                 obs["valid"] = validity(tc)
+            finish(obs, case, ctx0, tc)
             return obs
-        tc = gen_ts.build_tables(d)
+        tc = build(case)
         obs = {"in": dump(tc, s)}
+        ctx0 = context(tc) if case.get("ctx") else None
         kw = {}
         if "flags" in case:
             kw["flags"] = case["flags"]
@@ -1012,7 +1189,7 @@ class TimeCut(Family):
             return obs
         obs["out"] = dump(out, s)
         obs["valid"] = validity(out)
-        obs["nprov"] = out.provenances.num_rows
+        finish(obs, case, ctx0, out)
         return obs
 
     def oracle(self, case, obs):
@@ -1033,6 +1210,7 @@ class TimeCut(Family):
                 fails.append((op + ":unexpected-error", "%s %s" % (obs["error"], obs.get("msg"))))
                 return fails
             out = obs["out"]
+            check_context(op, case, obs, fails, has_prov_arg=False)
             unchanged(op, ["nodes", "individuals", "populations", "sites"], inp, out, fails)
             if out["L"] != inp["L"]:
                 fails.append((op + ":sequence-length-changed", ""))
@@ -1047,7 +1225,7 @@ class TimeCut(Family):
         # split_edges / decapitate
         flags = case.get("flags", 0)
         pop = case.get("population", NULL)
-        md = case.get("metadata", "")
+        md = case.get("metadata", "7b7d" if case.get("ctx") else "")
         if inp["migrations"] or pop < -1 or pop >= len(inp["populations"]):
             if obs.get("error") not in ("LibraryError", "ValueError"):
                 fails.append((op + ":unsupported-input-accepted", "%r" % obs.get("error")))
@@ -1060,6 +1238,7 @@ class TimeCut(Family):
             fails.append((op + ":result-invalid", str(obs["valid"])))
         if out["L"] != inp["L"]:
             fails.append((op + ":sequence-length-changed", ""))
+        check_context(op, case, obs, fails, has_prov_arg=False)
         unchanged(op, ["individuals", "populations", "sites", "migrations"], inp, out, fails)
         cmp_rows(op, "old-node-rows-changed", out["nodes"][:N], nodes, fails)
         for r in out["nodes"][N:]:
@@ -1167,7 +1346,7 @@ class TimeCut(Family):
         npop = len(case["desc"]["populations"])
         return "res_tables_eqb (%s_c %s %s %s %s %s %s) (canon_res %s)" % (
             op, cz(case["time2"]), cz(case.get("flags", 0)), cz(case.get("population", NULL)),
-            hexl(case.get("metadata", "")), cz(npop), q_tables(obs["in"]), exp)
+            hexl(case.get("metadata", "7b7d" if case.get("ctx") else "")), cz(npop), q_tables(obs["in"]), exp)
 
     def nontrivial(self, case, obs):
         if "error" in obs:
@@ -1283,11 +1462,11 @@ def extend_pattern(rng):
             "mutations": muts, "individuals": [], "populations": [], "migrations": []}
 
 
-class Extend(Family):
+class Extend(Flagged):
     name = "extend"
     workers = 8
 
-    def generate(self, rng, tier):
+    def _generate(self, rng, tier):
         nd = 1000 if tier == "quick" else 12000
         for k in range(nd):
             d = make_desc(rng, migrations=(rng.random() < 0.05), edge_md=False,
@@ -1299,8 +1478,9 @@ class Extend(Family):
     def observe(self, case):
         d = case["desc"]
         s = d["scale"]
-        tc = gen_ts.build_tables(d)
+        tc = build(case)
         obs = {"in": dump(tc, s)}
+        ctx0 = context(tc) if case.get("ctx") else None
         try:
             ts = tc.tree_sequence()
             out_ts = ts.extend_haplotypes(max_iter=case["max_iter"])
@@ -1311,6 +1491,7 @@ class Extend(Family):
         out = out_ts.dump_tables()
         obs["out"] = dump(out, s)
         obs["valid"] = validity(out)
+        finish(obs, case, ctx0, out)
         # differential part: simplify(result) == simplify(original)
         try:
             a = ts.simplify().dump_tables()
@@ -1346,6 +1527,7 @@ class Extend(Family):
             fails.append((op + ":result-invalid", str(obs["valid"])))
         if out["L"] != inp["L"]:
             fails.append((op + ":sequence-length-changed", ""))
+        check_context(op, case, obs, fails, has_prov_arg=False)
         unchanged(op, ["nodes", "individuals", "populations", "sites", "migrations"], inp, out, fails)
         strip = lambda ms: [[m[0], m[2], m[3], m[4], m[5]] for m in ms]     # noqa: E731
         cmp_rows(op, "mutation-fields-other-than-node-changed", strip(out["mutations"]), strip(inp["mutations"]), fails)
@@ -1382,6 +1564,51 @@ class Extend(Family):
                     fails.append((op + ":mrca-changed", "x2=%d samples %d,%d: %r -> %r" % (x, a, b, mi, mo)))
             # (the docstring sentence "edges whose child node is a sample are not modified" does not
             #  describe the code, which only refuses to *insert* a sample; not part of the property)
+        # hypotheses of theorem extend_preserves_genotype (C11/ExtendSpec.v), checked on the output:
+        # at every site position each node of the input tree keeps its input parent as an ancestor,
+        # what is inserted in between is a run of nodes absent from the input tree, each inserted in
+        # one place only, and every mutation sits where the slide loop (climb) puts it
+        tmn = [r[1] for r in inp["nodes"]]
+        for i, st in enumerate(inp["sites"]):
+            pos = st[0]
+            pin = cover_map(inp["edges"], pos, N, [], op)
+            pout = cover_map(out["edges"], pos, N, [], op)
+            present = set(pin) | {v[0] for v in pin.values()}
+            runs, owner = {}, {}
+            for u in present:
+                target = pin[u][0] if u in pin else None
+                run, v, ok = [], u, True
+                while True:
+                    nxt = pout[v][0] if v in pout else None
+                    if nxt == target:
+                        break
+                    if nxt is None or len(run) > N:
+                        ok = False
+                        break
+                    run.append(nxt)
+                    v = nxt
+                if not ok:
+                    fails.append((op + ":input-parent-no-longer-ancestor", "site %d node %d" % (i, u)))
+                    continue
+                runs[u] = run
+                for n_ in run:
+                    if n_ in present:
+                        fails.append((op + ":inserted-node-was-in-the-tree", "site %d node %d inserted above %d" % (i, n_, u)))
+                    if n_ in owner and owner[n_] != u:
+                        fails.append((op + ":inserted-node-not-unary", "site %d node %d above %d and %d" % (i, n_, owner[n_], u)))
+                    owner[n_] = u
+            for j, m in enumerate(inp["mutations"]):
+                if m[0] != i or m[1] not in runs or m[4] is None:
+                    continue
+                cur = m[1]
+                for n_ in runs[m[1]]:
+                    if tmn[n_] <= m[4]:
+                        cur = n_
+                    else:
+                        break
+                if j < len(out["mutations"]) and out["mutations"][j][1] != cur:
+                    fails.append((op + ":mutation-slide-rule", "mutation %d: node %d -> %d, the slide loop gives %d"
+                                  % (j, m[1], out["mutations"][j][1], cur)))
         if obs["simplify_equal"] is not True:
             fails.append((op + ":simplify-differs" + (":mutation-on-absent-node" if absent and set(obs.get("simplify_diff") or ["?"]) <= {"sites", "mutations"} else ""),
                           "%r %r" % (obs["simplify_equal"], obs.get("simplify_diff"))))
